@@ -17,14 +17,14 @@ import (
 
 // Oracles that a run may enable. The executor is shared by C01, C02, C03 (observations) and C13.
 type oracles struct {
-	safety bool // C01: everything stored/broadcast verifies against the right set
-	model  bool // C02: publication exactly when observed && quorum, per the reference model
-	gossip bool // C03: unacceptable observations leave no trace, acceptable ones are recorded
-	live   bool // C13: after the script a fresh message still reaches quorum
+	safety    bool          // C01: everything stored/broadcast verifies against the right set
+	model     bool          // C02: publication exactly when observed && quorum, per the reference model
+	gossip    bool          // C03: unacceptable observations leave no trace, acceptable ones are recorded
+	live      bool          // C13: after the script a fresh message still reaches quorum
 	contracts *vh.Contracts // C07: every locally published VAA is accepted by the interpreted contract verifiers
-	digest bool // C04: every own SignedObservation carries the reference digest of the observed message
-	adv    bool // C13: adversarial ops allowed (injection before the first set, arbitrary injected VAAs)
-	pfx    string
+	digest    bool          // C04: every own SignedObservation carries the reference digest of the observed message
+	adv       bool          // C13: adversarial ops allowed (injection before the first set, arbitrary injected VAAs)
+	pfx       string
 }
 
 // reference model of one digest (C02)
